@@ -2637,7 +2637,19 @@ class HasTraits(CHasTraits, metaclass=MetaHasTraits):
                     handler_type=lnw.type,
                 ).listener
                 lnw.listener = listener
-                listener.register(self)
+                try:
+                    listener.register(self)
+                except BaseException:
+                    # Remove whatever has been hooked up so far.
+                    try:
+                        listener.unregister(self)
+                    except Exception:
+                        pass
+                    if len(listeners) == 0:
+                        del dict[name]
+                        if len(dict) == 0:
+                            del self.__dict__[TraitsListener]
+                    raise
                 listeners.append(lnw)
 
     # A synonym for 'on_trait_change'
